@@ -145,8 +145,8 @@ package objectcore
 //@   loop 4 invariant !more
 
 // ---- C03: an integer filter matches by numeric comparison of the values.
+//@ fileprops C03
 //@ func intMatches
-//@   property C03
 //@   opt wide=272
 //@   valid (dbVal.neg ==> leval(dbVal.mag, 0, 4) != 0) && (fltVal.neg ==> leval(fltVal.mag, 0, 4) != 0)
 //@   ensures [numeric_comparison_of_the_values] result == ite(matcher == object.MatchNumGT, valOf(dbVal.neg, leval(dbVal.mag, 0, 4)) > valOf(fltVal.neg, leval(fltVal.mag, 0, 4)), ite(matcher == object.MatchNumGE, valOf(dbVal.neg, leval(dbVal.mag, 0, 4)) >= valOf(fltVal.neg, leval(fltVal.mag, 0, 4)), ite(matcher == object.MatchNumLT, valOf(dbVal.neg, leval(dbVal.mag, 0, 4)) < valOf(fltVal.neg, leval(fltVal.mag, 0, 4)), valOf(dbVal.neg, leval(dbVal.mag, 0, 4)) <= valOf(fltVal.neg, leval(fltVal.mag, 0, 4)))))
